@@ -6,7 +6,9 @@ VERIF = os.path.dirname(os.path.dirname(os.path.abspath(__file__)))
 REPO = os.environ.get('OPTILAND_REPO', '/repo')
 LEAN_DIR = os.path.join(VERIF, 'lean')
 DRIVER = os.path.join(LEAN_DIR, '.lake', 'build', 'bin', 'optidrv')
-EVIDENCE_DIR = os.path.join(VERIF, 'evidence')
+# evidence/ describes runs against /repo itself; a run against a scratch tree (OPTILAND_REPO) writes elsewhere
+EVIDENCE_DIR = os.path.join(VERIF, 'evidence') if os.path.realpath(REPO) == os.path.realpath('/repo') \
+    else os.path.join(VERIF, '.scratch', 'evidence')
 REPLAY_DIR = os.path.join(VERIF, 'replays')
 ALLOWED_AXIOMS = {'propext', 'Classical.choice', 'Quot.sound'}
 
